@@ -78,15 +78,37 @@ func (e *Engine) registerIntrinsics() {
 
 	// ---- harness API
 	e.reg(v+"Bool", func(fr *frame, args []value) value {
-		t, _ := fr.i.path.newVar(fr.i.concretizeStr(args[0]), 0, "bool")
+		p := fr.i.path
+		if p.concrete {
+			b := p.rng.Intn(2) == 1
+			d := &Draw{Label: fr.i.concretizeStr(args[0]), Kind: "bool", fixed: true}
+			if b {
+				d.Val = 1
+			}
+			p.draws = append(p.draws, d)
+			return b
+		}
+		t, _ := p.newVar(fr.i.concretizeStr(args[0]), 0, "bool")
 		return t
 	})
 	e.reg(v+"Int64", func(fr *frame, args []value) value {
-		t, _ := fr.i.path.newVar(fr.i.concretizeStr(args[0]), 64, "int")
+		p := fr.i.path
+		if p.concrete {
+			n := p.randInt(64)
+			p.draws = append(p.draws, &Draw{Label: fr.i.concretizeStr(args[0]), Kind: "int", W: 64, Val: uint64(n), fixed: true})
+			return n
+		}
+		t, _ := p.newVar(fr.i.concretizeStr(args[0]), 64, "int")
 		return t
 	})
 	e.reg(v+"Int32", func(fr *frame, args []value) value {
-		t, _ := fr.i.path.newVar(fr.i.concretizeStr(args[0]), 32, "int")
+		p := fr.i.path
+		if p.concrete {
+			n := p.randInt(32)
+			p.draws = append(p.draws, &Draw{Label: fr.i.concretizeStr(args[0]), Kind: "int", W: 32, Val: uint64(uint32(int32(n))), fixed: true})
+			return int32(n)
+		}
+		t, _ := p.newVar(fr.i.concretizeStr(args[0]), 32, "int")
 		return t
 	})
 	e.reg(v+"IntRange", func(fr *frame, args []value) value {
@@ -94,7 +116,12 @@ func (e *Engine) registerIntrinsics() {
 		if hi < lo {
 			panic(pathAbort{abortAssume, "empty IntRange"})
 		}
-		k := fr.i.path.choose(hi-lo+1, nil)
+		var k int
+		if fr.i.path.concrete {
+			k = fr.i.path.rng.Intn(hi - lo + 1)
+		} else {
+			k = fr.i.path.choose(hi-lo+1, nil)
+		}
 		fr.i.path.draws = append(fr.i.path.draws, &Draw{Label: fr.i.concretizeStr(args[0]), Kind: "choice", Val: uint64(lo + k), fixed: true})
 		return lo + k
 	})
@@ -106,6 +133,15 @@ func (e *Engine) registerIntrinsics() {
 		label := fr.i.concretizeStr(args[0])
 		if len(lits) == 1 {
 			return lits[0]
+		}
+		if fr.i.path.concrete {
+			k := fr.i.path.rng.Intn(len(lits))
+			d := &Draw{Label: label, Kind: "string", W: 8, Val: uint64(k), fixed: true}
+			for _, l := range lits {
+				d.Lits = append(d.Lits, l.(string))
+			}
+			fr.i.path.draws = append(fr.i.path.draws, d)
+			return lits[k]
 		}
 		t, d := fr.i.path.newVar(label, 8, "string")
 		fr.i.path.assertPC(bvCmp("bvult", t, mkBV(uint64(len(lits)), 8)))
